@@ -836,6 +836,7 @@ func GenC10(seed, index uint64) *Run {
 	r := prng.New(prng.Mix(seed, index))
 	run := &Run{Prop: "C10", Seed: seed, Index: index, Build: "plain", NE: 2 + r.N(5), NS: 2 + r.N(5), ObsAll: true}
 	g := newGen(r, run)
+	g.wS["s.random"] = 0 // what Random returns is C18's statement
 	n := 1 + r.N(40)
 	if r.P(0.3) {
 		n = 1 + r.N(8)
@@ -853,6 +854,7 @@ func GenC15(seed, index uint64) *Run {
 	r := prng.New(prng.Mix(seed, index))
 	run := &Run{Prop: "C15", Seed: seed, Index: index, Build: "plain", NE: 2 + r.N(3), NS: 2 + r.N(3), ObsAll: true, Arena: true, Returns: true}
 	g := newGen(r, run)
+	g.wS["s.random"] = 0
 	// memory-facing operations get more weight here
 	for _, k := range []string{"e.h2g", "e.e2g", "e.decode", "e.decodec", "e.decodeu", "e.unmarshal"} {
 		if g.wE[k] > 0 || r.P(0.7) {
@@ -1008,9 +1010,7 @@ func GenC18(seed, index uint64, build string) *Run {
 		for i := 0; i < n; i++ {
 			ops = append(ops, Op{K: "s.random", R: r.N(run.NS)})
 			calls++
-			if r.P(0.2) {
-				ops = append(ops, Op{K: "s.invert", R: r.N(run.NS)})
-			}
+
 		}
 		run.Tasks = append(run.Tasks, ops)
 	}
